@@ -1,6 +1,7 @@
 mod c09sem;
 mod c01;
 mod c02mut;
+mod c03;
 mod mini;
 mod c06;
 mod c07;
@@ -25,7 +26,7 @@ mod text;
 use crate::core::{CheckDef, Tier};
 
 fn defs() -> Vec<&'static CheckDef> {
-    vec![&c01::C01, &cexec::C02, &cexec::C04, &cexec::C05, &c06::C06, &c07::C07, &c08::C08, &c10::C09, &c10::C10, &c11::C11, &c14::C14, &c15::C15, &c16::C16, &cexec::C17, &c18::C18, &c19::C19, &c20::C20]
+    vec![&c01::C01, &cexec::C02, &c03::C03, &cexec::C04, &cexec::C05, &c06::C06, &c07::C07, &c08::C08, &c10::C09, &c10::C10, &c11::C11, &c14::C14, &c15::C15, &c16::C16, &cexec::C17, &c18::C18, &c19::C19, &c20::C20]
 }
 
 fn main() {
@@ -94,6 +95,9 @@ fn main() {
             for (_, p) in cairo_corpus::compiled_examples() {
                 println!("{p}");
             }
+        }
+        Some("debug-c03") => {
+            c03::debug_time(&args[1], args[2].parse().unwrap());
         }
         Some("list") => {
             for d in defs {
